@@ -209,7 +209,7 @@ fn gen_case(rng: &mut Rng, i: usize) -> (HCfg, Vec<HOp>, BTreeMap<u64, Loc>) {
 pub fn run(seed: u64, tier: &str, shard: usize, nshards: usize) -> ShardResult {
     let mut res = ShardResult::new("c12", seed);
     let rt = tokio::runtime::Builder::new_multi_thread().worker_threads(3).enable_all().build().unwrap();
-    let total = if tier == "thorough" { 8000 } else { 960 };
+    let total = if tier == "thorough" { 32_000 } else { 4_000 };
     let mut rng = Rng::derive(seed, 0xC12_000 + shard as u64);
     for i in 0..total / nshards.max(1) {
         let (cfg, script, locs) = gen_case(&mut rng, i);
